@@ -130,3 +130,40 @@ Print Assumptions C04_original_chain_not_ascending_refuted.
 Example C04_chain_nonvacuous : exists evs s, crun true (cinit [[10]; [20; 30]]) evs = Some s /\
   sc_pc (c_scan s) = CDone /\ sc_res (c_scan s) = [10; 20; 30] /\ (1 <=? sc_restarts (c_scan s)) = true.
 Proof. exact chain_nonvacuous. Qed.
+
+(** ** Size-limited and right-to-left scans along the chain (ChainLimProofs) *)
+From Yk Require Import ChainLimDefs ChainLimProofs.
+
+Theorem C04_chain_limited_ascending : forall kss evs s, kss_ok kss = true -> lrun (linit kss) evs = Some s ->
+  sorted_strict (ls_res (l_scan s)) = true /\
+  (ls_max (l_scan s) <> 0%nat -> (length (ls_res (l_scan s)) <= ls_max (l_scan s))%nat).
+Proof. exact lim_scan_ascending. Qed.
+Print Assumptions C04_chain_limited_ascending.
+
+Theorem C04_chain_limited_sound : forall kss evs s k, kss_ok kss = true -> lrun (linit kss) evs = Some s ->
+  In k (ls_res (l_scan s)) ->
+  in_interval (ls_l (l_scan s)) (ls_r (l_scan s)) k = true /\ In k (l_ever s).
+Proof. exact lim_scan_sound. Qed.
+Print Assumptions C04_chain_limited_sound.
+
+(** a completed forward scan has delivered every stable key of the part of the interval it covered *)
+Theorem C04_chain_limited_no_lost_stable_key : forall kss evs s k, kss_ok kss = true -> lrun (linit kss) evs = Some s ->
+  ls_pc (l_scan s) = CDone -> ls_rtl (l_scan s) = false -> In k (l_stable s) ->
+  in_interval (ls_l (l_scan s)) (ls_r (l_scan s)) k = true ->
+  (ls_max (l_scan s) = 0%nat \/ (length (ls_res (l_scan s)) < ls_max (l_scan s))%nat \/
+   (exists lk, last_key (ls_res (l_scan s)) = Some lk /\ k <= lk)) ->
+  In k (ls_res (l_scan s)).
+Proof. exact lim_scan_no_lost_stable_key. Qed.
+Print Assumptions C04_chain_limited_no_lost_stable_key.
+
+(** right-to-left: when the validated last border was not empty, no stable key >= l is greater than the delivered key.
+    The hypothesis is necessary in the model, where a remove and the unlink of the emptied border are two steps
+    ([rtl_empty_last_border_counterexample]); in the code both happen under one lock, so a reader never validates an
+    empty non-root border -- the precise form of that dependency. *)
+Theorem C04_chain_rtl_greatest_stable_partial : forall kss evs1 s1 s2 evs2 s k,
+  kss_ok kss = true -> lrun (linit kss) evs1 = Some s1 -> lstep s1 LValidate = Some s2 ->
+  ls_rtl (l_scan s1) = true -> ls_pc (l_scan s2) = CDone -> ls_snap (l_scan s1) <> [] ->
+  lrun s2 evs2 = Some s -> In k (l_stable s) -> ls_l (l_scan s) <= k ->
+  exists d, ls_res (l_scan s) = [d] /\ k <= d.
+Proof. exact rtl_scan_greatest_stable_validated. Qed.
+Print Assumptions C04_chain_rtl_greatest_stable_partial.
